@@ -31,7 +31,7 @@ func vfGenProdConf(t *rapid.T, emph string) vfProdConf {
 	switch {
 	case emph == "C05":
 		c.Idempotent = true
-	case modern && emph != "C18" && vfcore.EnvInt("VF_NO_IDEMPOTENT", 0) == 0:
+	case modern && emph != "C18" && emph != "C16" && vfcore.EnvInt("VF_NO_IDEMPOTENT", 0) == 0:
 		c.Idempotent = rapid.IntRange(0, 3).Draw(t, "idempotent") == 0
 	}
 	if c.Idempotent {
@@ -334,6 +334,17 @@ func vfGenProdCase(t *rapid.T, emph string) *vfProdCase {
 		c.FlushProbe = true
 	}
 	gates := vfGenFaults(t, c, 12, c.Conf.Idempotent)
+	if emph == "C16" {
+		// the statement quantifies over response latency, not over failures: keep only delays and held responses
+		for k, l := range c.Faults {
+			for i := range l {
+				if l[i].Kind != "ok" || l[i].MoveLeader != "" {
+					l[i] = vfFault{Kind: "ok", DelayUs: 500 * (1 + i%4), Gate: l[i].Gate}
+				}
+			}
+			c.Faults[k] = l
+		}
+	}
 	vfGenScript(t, c, gates)
 	vfGenDelays(t, c)
 	if emph == "C18" {
